@@ -10,13 +10,20 @@ MUTANTS = [
     # NOTE: this one and the next are property-breaking only while HTTP._on_disconnect does not drop _buffers[sock] itself; once
     # proposed_fixes/C14-parser-retained-after-disconnect.diff is applied the disconnect that follows the close cleans up and both
     # become equivalent mutants (remove them then).
-    ('c14-400-path-keeps-parser', 'C14', H,
-     "                res = wrappers.Response(req, encoding=self._encoding)\n                del self._buffers[sock]\n                return self.fire(httperror(req, res, 400))",
-     "                res = wrappers.Response(req, encoding=self._encoding)\n                return self.fire(httperror(req, res, 400))"),
-    # ... nor does the missing-Host 400
-    ('c14-nohost-400-keeps-parser', 'C14', H,
-     "            del self._buffers[sock]\n            return self.fire(httperror(req, res, 400, description='No host header defined'))",
-     "            return self.fire(httperror(req, res, 400, description='No host header defined'))"),
+    # c14-400-path-keeps-parser / c14-nohost-400-keeps-parser: equivalent since fix aff3647 (the disconnect that follows the close now
+    # drops the parser); replaced by the revert of that fix:
+    ('c14-revert-disconnect-drops-parser', 'C14', H,
+     "        if sock in self._buffers:\n            del self._buffers[sock]\n\n    @handler('read')  # noqa",
+     "\n    @handler('read')  # noqa"),
+    ('c14-revert-invalid-content-length', 'C14', 'circuits/web/parsers/http.py',
+     "            if not (clen.isascii() and clen.isdigit()):\n                raise InvalidHeader('invalid Content-Length %s' % clen)\n",
+     "            if False:\n                pass\n"),
+    ('c14-revert-505-version', 'C14', H,
+     "                res.protocol = 'HTTP/{:d}.{:d}'.format(*sp)\n                return self.fire(httperror(req, res, 505))",
+     "                return self.fire(httperror(req, res, 505))"),
+    ('c14-revert-value-ctl-check', 'C14', 'circuits/web/parsers/http.py',
+     "            if VALUE_CTL_RE.search(value):\n                raise InvalidHeader('invalid character in value of header %s' % name)\n",
+     ""),
     # X2: httperror no longer closes the connection (what stays behind on the 500/505 paths then answers the next request)
     ('c14-httperror-not-closing', 'C14', E, "        self.response.close = True\n        self.response.status = self.code", "        self.response.status = self.code"),
     # X3: exception handler removed: a handler error is answered by nothing
